@@ -495,10 +495,14 @@ func (g *codecGen) taskCases() {
 
 // ---- value files ----------------------------------------------------------
 
-func (g *codecGen) valueCases(tmp string) {
+// valueBoundary: pairs that every run checks (the halves of the unsigned range, its ends)
+var valueBoundary = [][2]uint64{{1 << 63, 2}, {1<<64 - 1, 1 << 63}, {1<<63 - 1, 1<<63 + 1}, {1, 1<<64 - 1}, {0, 1 << 63}}
+
+func (g *codecGen) valueCases(tmp string) { g.valueCasesOf(tmp, g.u64(), g.u64()) }
+
+func (g *codecGen) valueCasesOf(tmp string, v1, v2 uint64) {
 	exts := []string{".id", ".term"}
 	ext := exts[g.rnd.Intn(2)]
-	v1, v2 := g.u64(), g.u64()
 	name := filepath.Base(valueFile(tmp, ext, v1, v2))
 	g.add(fmt.Sprintf("CVal %d %d %d %s %s", g.id("valueFile"), v1, v2, coqBytes([]byte(ext)), coqBytes([]byte(name))), "value/name")
 
@@ -584,6 +588,9 @@ func codecMain(args []string) int {
 		}
 		g.taskCases()
 		g.valueCases(tmp)
+	}
+	for _, vb := range valueBoundary {
+		g.valueCasesOf(tmp, vb[0], vb[1])
 	}
 	// large payloads, around the sizes at which readers switch strategy (powers of two) and beyond
 	sizes := []int{16385 + g.rnd.Intn(600)}
